@@ -106,6 +106,36 @@ def configuration_is_always_resolved(prog, rep, R):
     rep.check(ok, R, "config-error-reaches-handler", "the error of get_config_object is not handed to the error handler", instance={"handler": "err_handler(e) under Err"})
 
 
+TEXT_IDENTITY = ("branch", "parse", "index", "to_owned", "to_string", "from", "into", "clone", "deref", "as_str", "as_ref", "borrow", "split_once", "split_at", "find", "ok_or_else", "ok_or",
+                 "unwrap", "expect", "get", "RangeTo", "RangeFrom", "Range", "Add", "Sub", "tuple", "closure", "tmp", "Some", "Ok")
+
+
+def override_text_is_taken_as_written(prog, rep, R):
+    """C19.i — "equal configurations however specified" and "unknown keys are rejected": the key and the value of a `-C KEY=VALUE`
+    override reach the configuration builder as the text on either side of the first `=`, through slicing and copying only.  A key
+    that is case-mapped, trimmed or has characters replaced on the way accepts names (`TAB-WIDTH`) that the same option rejects
+    when it comes from a file; a rewritten value changes what the user asked for."""
+    bs = [b for k, b in prog.bodies.items() if k.endswith("command_line::parse_override")]
+    if not rep.check(len(bs) == 1, R, "anchor:parse_override", "parse_override not found"):
+        return
+    b = bs[0]
+    n = 0
+    for bb, i, st in b.stmts():
+        if st["k"] == "assign" and st["rv"]["k"] == "aggregate" and st["rv"].get("variant") == "Set":
+            f = dict(zip(st["rv"]["fields"], st["rv"]["ops"]))
+            for name in ("key", "val"):
+                if name not in f:
+                    continue
+                n += 1
+                text = canon(b, f[name])
+                fns = set(re.findall(r"([A-Za-z_][A-Za-z_0-9:]*)[({]", text))
+                other = sorted(x for x in fns if x.split("::")[-1] not in TEXT_IDENTITY)
+                rep.check(not other and "arg1" in text, R, "override-%s-as-written" % name,
+                          "the %s of a -C override is not the text the user wrote next to the `=`: it passes through %s (%s) — names or values that differ from the documented ones are then accepted "
+                          "from the command line but not from a file" % (name, other, text[:100]), where="%s:%d" % (b.file, abs(st.get("line", 0))), instance={"field": name, "derivation": text[:140]})
+    rep.floor(R, "fields of ConfigOverride::Set built from the argument", n, 2)
+
+
 def explicit_config_file_must_be_a_file(prog, rep, R):
     """C19.h — "the file given with --config-file must exist and be a regular file": the `config` crate resolves a file source by
     trying the path and then the path with known extensions appended, so `--config-file alt` silently reads `alt.toml`.  In
@@ -158,6 +188,7 @@ def check_c19(prog, rep, tier, cfg):
     config_values_are_not_narrowed(prog, rep, "C19.f")
     configuration_is_always_resolved(prog, rep, "C19.g")
     explicit_config_file_must_be_a_file(prog, rep, "C19.h")
+    override_text_is_taken_as_written(prog, rep, "C19.i")
     # ---------------------------------------------------------------- C19.a layering
     R = "C19.a"
     b = prog.body(PC + "get_config_object_from_file")
